@@ -34,6 +34,8 @@ type vdOpenFile struct {
 	path     string
 	closed   bool
 	readOnly bool // writes fail with EBADF (a handle that was opened read-only)
+	pos      int  // file offset of the handle (reads and writes advance it)
+	appendTo bool // O_APPEND: every write goes to the end of the file
 }
 
 type vdFS struct {
@@ -147,6 +149,25 @@ func verifOSCreate(name string) (*os.File, error) {
 	return f.newFile(name), nil
 }
 
+// writeAt is the kernel's write(2) on a regular file: bytes land at the handle's offset (at the end with O_APPEND),
+// overwrite what is there, extend the file when they reach past its end, and advance the offset.
+func (f *vdFS) writeAt(of *vdOpenFile, p []byte) {
+	cur, ok := f.files[of.path]
+	if !ok {
+		return // unlinked: the bytes go to an inode nobody can see
+	}
+	if of.appendTo || of.pos > len(cur) {
+		of.pos = len(cur)
+	}
+	out := append([]byte(nil), cur[:of.pos]...)
+	out = append(out, p...)
+	if of.pos+len(p) < len(cur) {
+		out = append(out, cur[of.pos+len(p):]...)
+	}
+	of.pos += len(p)
+	f.files[of.path] = out
+}
+
 func verifOSFileWrite(file *os.File, p []byte) (int, error) {
 	f := vdFSState
 	of := f.open[file]
@@ -162,15 +183,13 @@ func verifOSFileWrite(file *os.File, p []byte) (int, error) {
 		if len(p) > 0 {
 			n = []int{0, len(p) - 1}[verifNondetChoice(2)]
 		}
-		if _, ok := f.files[of.path]; ok && n > 0 {
-			f.files[of.path] = append(append([]byte(nil), f.files[of.path]...), p[:n]...)
+		if n > 0 {
+			f.writeAt(of, p[:n])
 		}
 		f.invariant()
 		return n, &fs.PathError{Op: "write", Path: of.path, Err: err}
 	}
-	if _, ok := f.files[of.path]; ok {
-		f.files[of.path] = append(append([]byte(nil), f.files[of.path]...), p...)
-	}
+	f.writeAt(of, p)
 	f.invariant()
 	return len(p), nil
 }
